@@ -67,6 +67,27 @@ def tabSymmetrize (ι : Rat → K) (conj : K → K) (L : List (PSym Rat)) (B : M
 
 end Tab
 
+/-! ### the action on the indices of a (possibly anisotropic) division grid -/
+
+/-- the matrix `k' = k @ M` of an operation on reduced k-vectors, sign of TR / inversion included -/
+def signedRedMat (g : PSym Rat) (B : Mat Rat) : Mat Rat :=
+  fun i j => g.redMat B i j * (sgn g.tr * sgn g.inv)
+
+/-- The grid point with index `n` (`k_i = n_i / div_i`) is mapped to the grid point with index
+    `n'_j = Σ_i n_i M_ij div_j / div_i`.  This is what `Grid.get_K_list` evaluates as
+    `round(KP.star * div) % div`; the ratios `div_j / div_i` matter as soon as an operation couples two reduced axes
+    that carry different numbers of divisions (oblique cells with anisotropic NKdiv). -/
+def gridImage (M : Mat Rat) (div : Fin 3 → Nat) (n : Vec Rat) : Vec Rat :=
+  fun j => sum3 fun i => n i * M i j * (div j : Rat) / (div i : Rat)
+
+/-- the same without the ratios (correct only when coupled axes carry equal divisions) -/
+def gridImageNoRatio (M : Mat Rat) (n : Vec Rat) : Vec Rat :=
+  fun j => sum3 fun i => n i * M i j
+
+/-- index modulo the grid (`% div`); meaningful for integral images -/
+def modGrid (div : Fin 3 → Nat) (v : Vec Rat) : List Int :=
+  (List.finRange 3).map fun i => (v i).floor % (div i : Int)
+
 /-! ### integrated quantities -/
 
 /-- `result_all = Σ_K  paralfunc(K) * factor_K`  with `paralfunc(K) = pointgroup.symmetrize(calc(K))`;
@@ -133,6 +154,17 @@ def handle : List String → String
             (ws.getD n 0, tensorOfLists (r := r) (res.getD n []) (ims.getD n []))
           showTensor (irrSum GI.ofRat GI.conj L tT tI pts)
       | _, _, _, _, _, _, _, _ => "bad-op"
+  -- images of a grid index under every element:  gridimg Rs invs trs B div n  ->  n'(g1);n'(g2);...  (mod div)
+  | ["gridimg", rs, invs, trs, b, dv, n] =>
+    match parseRatss? rs, parseNats? invs, parseNats? trs, parseRats? b, parseNats? dv, parseRats? n with
+    | some rs, some invs, some trs, some b, some dv, some n =>
+      if det3 (matOfList b) = 0 || dv.any (· = 0) then "singular"
+      else
+        let imgs := (psymsOfWire rs invs trs).map fun g =>
+          gridImage (signedRedMat g (matOfList b)) (gridOfList dv) (vecOfList n)
+        if imgs.any (fun v => (List.finRange 3).any fun i => !isInt (v i)) then "nonintegral"
+        else showIntss (imgs.map (modGrid (gridOfList dv)))
+    | _, _, _, _, _, _ => "bad-op"
   | ["fullsum", rk, ws, res, ims] =>
     withRank rk fun r =>
       match parseRats? ws, parseRatss? res, parseRatss? ims with
